@@ -10,6 +10,7 @@ import argparse, concurrent.futures, glob, json, os, shutil, subprocess, sys, te
 ap = argparse.ArgumentParser()
 ap.add_argument("--tier", default="quick")
 ap.add_argument("--jobs", type=int, default=3)
+ap.add_argument("--key", default="final_run", help="meta.json key to store the result under (MATRIX.md is written for final_run only)")
 ap.add_argument("names", nargs="*")
 a = ap.parse_args()
 
@@ -31,7 +32,7 @@ def one(d):
             out[c] = {"exit": r.returncode, "mechanisms": mech}
     finally:
         shutil.rmtree(tmp, ignore_errors=True)
-    meta["final_run"] = {"tier": a.tier, "verif_commit": subprocess.run(["git", "-C", "/verif", "rev-parse", "--short", "HEAD"], capture_output=True, text=True).stdout.strip(),
+    meta[a.key] = {"tier": a.tier, "seed": os.environ.get("VERIF_SEED", "0"), "verif_commit": subprocess.run(["git", "-C", "/verif", "rev-parse", "--short", "HEAD"], capture_output=True, text=True).stdout.strip(),
                          "checks": out, "caught_by": [c for c, v in out.items() if v["exit"] == 1]}
     json.dump(meta, open(os.path.join(d, "meta.json"), "w"), indent=1)
     return name, meta
@@ -43,8 +44,10 @@ if a.names:
 rows = []
 with concurrent.futures.ThreadPoolExecutor(a.jobs) as ex:
     for name, meta in ex.map(one, dirs):
-        fr = meta["final_run"]
+        fr = meta[a.key]
         print(name, "caught by", fr["caught_by"] or "NOTHING", flush=True)
+if a.key != "final_run":
+    sys.exit(0)
 lines = ["| change | breaks | what it needs to manifest | caught by (quick tier; mechanisms) |", "|---|---|---|---|"]
 for d in sorted(glob.glob("/verif/seeded/*/")):
     meta = json.load(open(os.path.join(d, "meta.json")))
